@@ -23,10 +23,13 @@ RatRed(p)   == LET g == GCD(p[1], p[2]) IN IF g = 0 THEN p ELSE <<p[1] \div g, p
 
 (* reduced rational arithmetic (keeps 32-bit intermediates small) *)
 RatN(p)      == LET r == RatRed(p) IN IF r[2] < 0 THEN << -r[1], -r[2] >> ELSE r
-RatAdd(p, q) == RatN(<< p[1] * q[2] + q[1] * p[2], p[2] * q[2] >>)
-RatSub(p, q) == RatN(<< p[1] * q[2] - q[1] * p[2], p[2] * q[2] >>)
-RatMul(p, q) == RatN(<< p[1] * q[1], p[2] * q[2] >>)
-RatDiv(p, q) == RatN(<< p[1] * q[2], p[2] * q[1] >>)
+(* (operands are assumed reduced with positive denominators; cancel before multiplying) *)
+RatAdd(p, q) == LET d == GCD(p[2], q[2]) IN RatN(<< p[1] * (q[2] \div d) + q[1] * (p[2] \div d), (p[2] \div d) * q[2] >>)
+RatSub(p, q) == RatAdd(p, << -q[1], q[2] >>)
+RatMul(p, q) == LET g1 == GCD(p[1], q[2]) g2 == GCD(q[1], p[2])
+                    a1 == IF g1 = 0 THEN 1 ELSE g1  a2 == IF g2 = 0 THEN 1 ELSE g2
+                IN  RatN(<< (p[1] \div a1) * (q[1] \div a2), (p[2] \div a2) * (q[2] \div a1) >>)
+RatDiv(p, q) == RatMul(p, IF q[1] < 0 THEN << -q[2], -q[1] >> ELSE << q[2], q[1] >>)
 RatInt(n)    == << n, 1 >>
 
 (* 3-vectors and 3x3 matrices as tuples / tuples of rows *)
